@@ -40,6 +40,9 @@ type c14sk struct {
 	recv  string // receiver identifier in the current method ("" inside a helper)
 	rtype string
 	depth int
+	// parameters of the current method: a Block passed in by the caller is the
+	// caller's; a Block held in a local variable came out of the cache's table
+	params map[string]bool
 }
 
 // identKind classifies a local identifier by its static type: "node" for
@@ -272,6 +275,16 @@ func (s *c14sk) call(c *ast.CallExpr, deferred bool) []string {
 		}
 		// method of a value (n.b.Base(), b.Used(), c.root.prev.b...): a Block
 		// method; reaching the value may read cache state
+		if id, ok := f.X.(*ast.Ident); ok && s.params != nil && !s.params[id.Name] {
+			// (the bgzf import is resolved softly, so the static type may be
+			// unknown here: the Block interface is recognised by its methods)
+			if m := f.Sel.Name; m == "NextBase" || m == "Base" || m == "Used" {
+				// a Block taken out of the table into a local variable (Random
+				// keeps Blocks directly in its map): its state is cache state
+				// as long as the cache indexes it, like a node's
+				return append(ev, "LRead FNode")
+			}
+		}
 		return append(ev, s.expr(f.X)...)
 	case *ast.Ident:
 		if deferred {
@@ -409,6 +422,12 @@ func (s *c14sk) method(fd *ast.FuncDecl) []string {
 	s.recv = ""
 	if n := fd.Recv.List[0].Names; len(n) == 1 {
 		s.recv = n[0].Name
+	}
+	s.params = map[string]bool{}
+	for _, f := range fd.Type.Params.List {
+		for _, n := range f.Names {
+			s.params[n.Name] = true
+		}
 	}
 	return s.stmts(fd.Body.List)
 }
